@@ -8,10 +8,6 @@ _map = _P[_P.index("// ---- insertion-ordered map standing in"):_P.index("/// st
 U = "crates/astria-core/src/oracles/price_feed/utils.rs"
 
 PRELUDE = _vec.replace("macro_rules! vec { () => { crate::Vec::new() } }", "macro_rules! vec { () => { crate::Vec::new() }; ($x:expr) => {{ let mut v = crate::Vec::new(); v.push($x); v }} }") + _map + r'''
-impl<'a, K: Copy + Default + Ord, V: Copy + Default> Entry<'a, K, V> {
-    pub fn and_modify<F: FnOnce(&mut V)>(self, f: F) -> Self { if let Some(i) = self.m.find(&self.k) { f(&mut self.m.vs[i]); } self }
-}
-impl<K: Copy + Default + Ord, V: Copy + Default> IndexMap<K, V> { pub fn get(&self, k: &K) -> Option<&V> { match self.find(k) { Some(i) => Some(&self.vs[i]), None => None } } }
 #[derive(Clone, Copy, Debug, PartialEq, Eq, PartialOrd, Ord, Default)] pub struct CurrencyPairId(pub u8);
 #[derive(Clone, Copy, Debug, PartialEq, Eq, PartialOrd, Ord, Default)] pub struct CurrencyPair(pub u8);
 #[derive(Clone, Copy, Debug, PartialEq, Eq, PartialOrd, Ord, Default)] pub struct Price(pub i128);
